@@ -99,7 +99,20 @@ var shapes = []shape{
 
 var preSteps = []string{"pending", "unsolicited", "cancelled", "expired", "second-delivery"}
 
+// wire: v as the handler hands it over — the result of an RLP encode / decode round trip of the
+// message (custom decoders run, non-encoded fields such as Header.Version are at their zero value)
+func wire(v interface{}, out interface{}) {
+	b, err := rlp.EncodeToBytes(v)
+	if err != nil {
+		panic(err)
+	}
+	if err := rlp.DecodeBytes(b, out); err != nil {
+		panic(err)
+	}
+}
+
 func queueDeliveries(c *vh.Ctx, m *vh.Model, pm *aqua.VerifPM) {
+	queueHeaderFills(c, m, pm)
 	blocks, receipts := pm.ExtendChain(40, -3)
 	if len(blocks) != 40 {
 		c.Fatal("ExtendChain returned %d blocks", len(blocks))
@@ -151,17 +164,28 @@ func queueDeliveries(c *vh.Ctx, m *vh.Model, pm *aqua.VerifPM) {
 					reply := sh.f(ridx, len(blocks))
 					deliver := func(id string) (int, string) {
 						if kind == "receipts" {
-							var rs [][]*types.Receipt
+							rs := [][]*types.Receipt{}
 							for _, bi := range reply {
 								rs = append(rs, receipts[bi])
 							}
-							return q.DeliverReceipts(id, rs)
+							var w [][]*types.Receipt
+							wire(rs, &w)
+							return q.DeliverReceipts(id, w)
 						}
-						var txs [][]*types.Transaction
-						var uncles [][]*types.Header
+						type wbody struct {
+							Transactions []*types.Transaction
+							Uncles       []*types.Header
+						}
+						bs := []*wbody{}
 						for _, bi := range reply {
-							txs = append(txs, blocks[bi].Transactions())
-							uncles = append(uncles, blocks[bi].Uncles())
+							bs = append(bs, &wbody{blocks[bi].Transactions(), blocks[bi].Uncles()})
+						}
+						var w []*wbody
+						wire(bs, &w)
+						txs := make([][]*types.Transaction, len(w))
+						uncles := make([][]*types.Header, len(w))
+						for i, b := range w {
+							txs[i], uncles[i] = b.Transactions, b.Uncles
 						}
 						return q.DeliverBodies(id, txs, uncles)
 					}
@@ -229,6 +253,112 @@ func queueDeliveries(c *vh.Ctx, m *vh.Model, pm *aqua.VerifPM) {
 	}
 }
 
+// queueHeaderFills: queue.DeliverHeaders (skeleton fill) with wire-decoded batches that reach every
+// rejection branch at full size, against Net/Limits.v headers_fill_rule.
+func queueHeaderFills(c *vh.Ctx, m *vh.Model, pm *aqua.VerifPM) {
+	F := downloader.MaxHeaderFetch
+	blocks, _ := pm.ExtendChain(2*F+8, 0)
+	rule := params.TestChainConfig.GetBlockVersion
+	hs := make([]*types.Header, len(blocks))
+	for i, b := range blocks {
+		hs[i] = b.Header()
+		hs[i].SetVersion(byte(rule(hs[i].Number)))
+	}
+	from := hs[0].Number.Uint64()
+	tweak := func(h *types.Header) *types.Header { // same number and parent, another hash
+		cp := types.CopyHeader(h)
+		cp.Extra = append(append([]byte(nil), cp.Extra...), 0x42)
+		cp.SetVersion(byte(rule(cp.Number)))
+		return cp
+	}
+	type fill struct {
+		name string
+		hs   []*types.Header
+	}
+	seq := func(a, n int) []*types.Header { return append([]*types.Header(nil), hs[a:a+n]...) }
+	with := func(l []*types.Header, i int, h *types.Header) []*types.Header { l[i] = h; return l }
+	rev := seq(0, F)
+	for i, j := 0, F-1; i < j; i, j = i+1, j-1 {
+		rev[i], rev[j] = rev[j], rev[i]
+	}
+	same := make([]*types.Header, F)
+	for i := range same {
+		same[i] = hs[5]
+	}
+	fills := []fill{
+		{"exact", seq(0, F)}, {"count-191", seq(0, F-1)}, {"count-193", seq(0, F+1)}, {"count-0", nil}, {"count-1", seq(0, 1)}, {"count-384", seq(0, 2*F)},
+		{"shifted+1", seq(1, F)}, {"shifted+7", seq(7, F)}, {"second-batch-instead", seq(F, F)},
+		{"last-replaced", with(seq(0, F), F-1, tweak(hs[F-1]))}, {"first-replaced", with(seq(0, F), 0, tweak(hs[0]))},
+		{"bad-link-middle", with(seq(0, F), F/2, tweak(hs[F/2]))}, {"gap-middle", with(seq(0, F), F/2, hs[F/2+1])},
+		{"duplicate-middle", with(seq(0, F), F/2, hs[F/2-1])}, {"reversed", rev}, {"same-header-192", same},
+	}
+	for _, f := range fills {
+		for _, pre := range []string{"pending", "unsolicited", "expired", "second-delivery"} {
+			if pre != "pending" && f.name != "exact" && f.name != "shifted+1" {
+				continue
+			}
+			name := fmt.Sprintf("headers/%s/%s", f.name, pre)
+			q := downloader.VerifNewQueue(downloader.FullSync, from, rule)
+			q.ScheduleSkeleton(from, []*types.Header{types.CopyHeader(hs[F-1]), types.CopyHeader(hs[2*F-1])})
+			got := q.ReserveHeaders("p1")
+			if got != from {
+				c.Fatal("ReserveHeaders returned %d, want %d", got, from)
+			}
+			deliver := func(id string) (int, string) {
+				w := []*types.Header{}
+				wire(append([]*types.Header{}, f.hs...), &w) // what handleMsg decodes: Version is not on the wire
+				return q.DeliverHeaders(id, w)
+			}
+			pend, peer := true, "p1"
+			switch pre {
+			case "unsolicited":
+				pend, peer = false, "ghost"
+			case "expired":
+				time.Sleep(time.Millisecond)
+				q.ExpireHeaders(0)
+				pend = false
+			case "second-delivery":
+				vh.CatchPanic(func() { deliver("p1") })
+				pend = false
+			}
+			firstOK := len(f.hs) > 0 && f.hs[0].Number.Uint64() == from
+			lastOK := len(f.hs) > 0 && f.hs[len(f.hs)-1].Hash() == hs[F-1].Hash()
+			chainOK := true
+			for i := 1; i < len(f.hs); i++ {
+				if f.hs[i].Number.Uint64() != from+uint64(i) || f.hs[i].ParentHash != f.hs[i-1].Hash() {
+					chainOK = false
+				}
+			}
+			var n int
+			var cls string
+			p, pv := vh.CatchPanic(func() { n, cls = deliver(peer) })
+			c.Eval("downloader/deliver-headers/"+pre, name)
+			if p {
+				c.Violate("downloader-deliver-panic/headers/"+f.name,
+					fmt.Sprintf("queue.DeliverHeaders panics on a wire-decoded batch of %d headers (%s): %v — in the node this runs on the downloader's goroutine, which has no recover", len(f.hs), name, clipStr(fmt.Sprint(pv), 300)),
+					H{"kind": "queue-deliver", "case": name, "headers": len(f.hs), "first_number": firstNum(f.hs), "requested_origin": from})
+				continue
+			}
+			c.Correspond("queue.DeliverHeaders~headers_fill_rule", name, fmt.Sprintf("%d %s", n, cls),
+				m.Ask(fmt.Sprintf("hfill %s %d %s %s %s", b01(pend), len(f.hs), b01(firstOK), b01(lastOK), b01(chainOK))))
+		}
+	}
+}
+
+func firstNum(hs []*types.Header) interface{} {
+	if len(hs) == 0 {
+		return nil
+	}
+	return hs[0].Number.Uint64()
+}
+
+func clipStr(s string, n int) string {
+	if len(s) > n {
+		return s[:n] + "..."
+	}
+	return s
+}
+
 // ------------------------------------------------------------------ child process
 
 type childRun struct {
@@ -274,6 +404,17 @@ func (cr *childRun) finish(c *vh.Ctx) {
 			c.Violate("subproto-consumer-hang/"+strings.TrimPrefix(l, "HANG "), "a sync / fetch driven by an adversarial peer did not come back within its watchdog", H{"kind": "child-case", "case": strings.TrimPrefix(l, "HANG ")})
 		case strings.HasPrefix(l, "BASELINE-FAILED"):
 			c.Fatal("child: honest baseline did not work: %s", l)
+		case strings.HasPrefix(l, "PHSFAIL "):
+			f := strings.SplitN(strings.TrimPrefix(l, "PHSFAIL "), " ", 2)
+			sched := f[0][strings.LastIndex(f[0], "/")+1:]
+			c.Violate("handshake-honest-peer-rejected/"+sched, "protocol handshake / first messages between two honest ends ("+f[0]+"): "+f[1], H{"kind": "child-case", "case": f[0]})
+		case strings.HasPrefix(l, "PHSUNDECIDED "):
+			c.Note("undecided: %s", strings.TrimPrefix(l, "PHSUNDECIDED "))
+		case strings.HasPrefix(l, "PHS "):
+			f := strings.Fields(l)
+			if len(f) == 3 && cr.model != nil {
+				c.Correspond("doProtoHandshake (forced schedules)~handshake_outcomes", last, f[2], cr.model.Ask("phsoutcomes 0 "+f[1]))
+			}
 		case strings.HasPrefix(l, "MEMORY "):
 			c.Violate("subproto-consumer-memory/"+last, "the node's heap exceeded the ceiling while serving: "+l, H{"kind": "child-case", "case": last})
 		case strings.HasPrefix(l, "HDR "):
@@ -330,6 +471,46 @@ type remote struct {
 	srv       *aqua.VerifServer
 	receiptSh string
 	stateSh   string
+	fills     int
+	fillSh    string // how skeleton-fill replies (Amount = MaxHeaderFetch, Skip = 0, by number) are bent
+}
+
+// bendFill: a full-size reply to a skeleton-fill request that reaches one rejection branch of
+// queue.DeliverHeaders (hs = the honest 192 headers, next = the headers after them)
+func (rm *remote) bendFill(hs []*types.Header, from uint64) []*types.Header {
+	tweak := func(h *types.Header) *types.Header {
+		cp := types.CopyHeader(h)
+		cp.Extra = append(append([]byte(nil), cp.Extra...), 0x42)
+		return cp
+	}
+	out := append([]*types.Header(nil), hs...)
+	n := len(out)
+	switch rm.fillSh {
+	case "shifted+1":
+		out = out[1:]
+		if b := rm.byNum[from+uint64(n)]; b != nil {
+			out = append(out, b.Header())
+		}
+	case "count-191":
+		out = out[:n-1]
+	case "count-193":
+		if b := rm.byNum[from+uint64(n)]; b != nil {
+			out = append(out, b.Header())
+		}
+	case "last-replaced":
+		out[n-1] = tweak(out[n-1])
+	case "bad-link-middle":
+		out[n/2] = tweak(out[n/2])
+	case "gap-middle":
+		out[n/2] = out[n/2+1]
+	case "same-header":
+		for i := range out {
+			out[i] = hs[3]
+		}
+	case "zero":
+		out = nil
+	}
+	return out
 }
 
 func (rm *remote) headersFor(origin rlp.RawValue, amount, skip uint64, reverse bool) []*types.Header {
@@ -422,6 +603,12 @@ func (rm *remote) serve() {
 				continue
 			}
 			hs := rm.headersFor(q.Origin, q.Amount, q.Skip, q.Reverse)
+			if rm.fillSh != "" && rm.fillSh != "honest" && q.Amount == uint64(downloader.MaxHeaderFetch) && q.Skip == 0 && !q.Reverse && len(hs) == downloader.MaxHeaderFetch {
+				b, _ := rlp.EncodeToBytes(rm.bendFill(hs, hs[0].Number.Uint64()))
+				rm.fills++
+				rm.r.Send(aqua.BlockHeadersMsg, b, 5*time.Second)
+				continue
+			}
 			var reply []*types.Header
 			for _, i := range mutateList(rm.headerSh, len(hs)) {
 				if i < 0 {
@@ -629,6 +816,66 @@ func childMain() {
 	for _, sh := range hs {
 		syncCase(sh, "honest")
 	}
+	// --- A1b. a sync long enough for the skeleton / fill protocol (local 12, remote 12 + 420 empty
+	// blocks): fill requests (192 headers) answered with full-size batches bent towards each
+	// rejection branch of queue.DeliverHeaders — over the wire, so the node sees decoded headers
+	skelCase := func(fillSh string) {
+		name := "skeleton/fill=" + fillSh
+		run(name, func() {
+			pm, rm, _, _ := newScenario(name, 12, 420, 0)
+			rm.fillSh = fillSh
+			go rm.serve()
+			done := rm.r.Sync()
+			select {
+			case <-done:
+			case <-time.After(syncWatchdog):
+				fmt.Println("RESULT stalled-until-disconnect")
+				rm.r.Close()
+				select {
+				case <-done:
+				case <-time.After(60 * time.Second):
+					fmt.Println("HANG " + name)
+				}
+			}
+			close(rm.stop)
+			h := pm.LocalHeight()
+			if fillSh == "honest" && h != 432 {
+				baselineTries++
+				fmt.Printf("RESULT baseline-retry skeleton height=%d\n", h)
+				if baselineTries >= 4 {
+					fmt.Printf("BASELINE-FAILED honest skeleton sync ended at height %d, want 432\n", h)
+					os.Exit(4)
+				}
+				rm.r.Close()
+				retryBaseline = true
+				return
+			}
+			if fillSh != "honest" && rm.fills == 0 {
+				fmt.Println("BASELINE-FAILED no skeleton-fill request was seen in " + name)
+				os.Exit(4)
+			}
+			res := "rejected"
+			if h == 432 {
+				res = "synced"
+			} else if h > 12 {
+				res = "partial"
+			}
+			fmt.Printf("RESULT skeleton-%s height=%d fills-bent=%d connected=%v\n", res, h, rm.fills, rm.r.Connected())
+			rm.r.Close()
+		})
+	}
+	skelCase("honest")
+	for retryBaseline {
+		retryBaseline = false
+		skelCase("honest")
+	}
+	fs := []string{"shifted+1", "count-191", "bad-link-middle"}
+	if thorough {
+		fs = []string{"shifted+1", "count-191", "count-193", "last-replaced", "bad-link-middle", "gap-middle", "same-header", "zero"}
+	}
+	for _, sh := range fs {
+		skelCase(sh)
+	}
 	// --- A2. fast sync (headers, bodies, receipts, state trie nodes) against a server whose
 	// receipt / node-data replies are bent
 	const fastN = 90
@@ -795,6 +1042,7 @@ func childMain() {
 		fmt.Printf("RESULT fetcher height=%d connected=%v\n", pm.LocalHeight(), rm.r.Connected())
 		rm.r.Close()
 	})
+	childProtoHandshake(run)
 	childBaseProtocol(run, thorough)
 	childHeaderQueries(run, thorough, only)
 	fmt.Println("DONE")
